@@ -28,6 +28,8 @@ func checkC15(c *Ctx) {
 		"Add refuses duplicates; Proposed only raises a client's sequence number."
 	c.Decided += " A ready signal consumed by Get is always followed by an examination of the cache before Get returns or waits again."
 	c.NotDec = "FIFO order of the extracted elements as a functional fact of the extraction loop; liveness under arbitrary goroutine scheduling beyond the no-lost-wake-up rule."
+	// "none already proposed": the leader marks what is on the certified chain as proposed before it takes a batch (C06.7)
+	c.importFrom(checkC06, "C15.10", "C06.7")
 	c.Expect("C15.1", 6)
 	c.Expect("C15.2", 4)
 	c.Expect("C15.4", 4)
